@@ -28,6 +28,7 @@ import Nuts.Model.Tx
 import NutsProofs.Lemmas.Assoc
 import NutsProofs.Lemmas.Bytes
 import NutsProofs.Lemmas.SparseGet
+import NutsProofs.Facts
 namespace NutsProofs.C02
 open Nuts Nuts.Model Nuts.Model.DB Nuts.Model.Sparse NutsProofs
 
@@ -207,6 +208,14 @@ theorem C02_get_is_latest_of_composite_key (seg : Nat) (ops : List SOp)
       | none => .err := by
   intro s
   exact get_spec s (good_history ops _ (good_init seg) hok).1 b k now
+
+/-- **regenerated tie of the read path.** The conditions of tx_bptree.go the sparse model renders — the
+in-memory-first order, `SortFID` newest first, the segment range test of `Get`
+(`compare(newKey, start) >= 0 && compare(newKey, end) <= 0`), the as-coded overlap test of `rangeScanOnDisk`, the
+dead-record tests, the dedupe / filter of `processEntriesScanOnDisk`, the limit tests of the prefix scans — are,
+on this run, the expected lines (`NutsProofs.Facts.expectedReadPathStmts`). -/
+theorem C02_read_path_regenerated : NutsGen.F.readPathStmts = NutsProofs.Facts.expectedReadPathStmts :=
+  NutsProofs.Facts.read_path_ok
 
 /-- a history that rotates three times (100-byte segments), overwrites a key across segments and deletes one -/
 def wHist : List SOp :=
